@@ -335,10 +335,14 @@ def regression_scripts(ctx, known):
     here = os.path.dirname(os.path.dirname(os.path.dirname(os.path.abspath(__file__))))
     n = 0
     bad = 0
+    from ..c15reg import EXTRA
+    entries = []
     for e in ctx.known:
-        if e.get("status") != "fixed" or not e.get("witness"):
-            continue
-        path = os.path.join(here, e["witness"])
+        if e.get("status") == "fixed" and e.get("witness"):
+            entries.append((e, e["witness"]))
+            entries += [(e, w) for w in EXTRA.get(e["id"], []) if os.path.basename(w).startswith("C03")]     # second witnesses
+    for (e, wit) in entries:
+        path = os.path.join(here, wit)
         if not os.path.exists(path):
             continue
         text = open(path).read()
@@ -361,7 +365,7 @@ def regression_scripts(ctx, known):
         ctx.count(1, tag="regression-" + e["id"])
         if why:
             bad += 1
-            ctx.violation("regression-" + e["id"],
+            ctx.violation("regression-" + e["id"] + ("" if wit == e["witness"] else "-" + os.path.basename(wit)[:-4]),
                           "# C03: the repaired defect %s (fixed in %s) is back: %s\n# %s\n# transcript:\n%s\n%s--- script\n%s"
                           % (e["id"], e.get("commit", "?"), why, e.get("signature", ""), "\n".join("#   " + l[:300] for l in out if l),
                              "".join(l + "\n" for l in head.split("\n") if l.startswith("expect-last ")), script))
